@@ -1476,12 +1476,12 @@ def run(ctx):
         pure = list(dict.fromkeys(url_cases(ctx) + fa_cases(ctx)))
         g = Gen(ctx)
         gate_cases(g)
-        history_cases(g, 12 if quick else 400, 40 if quick else 45)
-        sender_mode_cases_c16b(g, 8 if quick else 250, 16 if quick else 22)
+        history_cases(g, 12 if quick else 160, 40 if quick else 45)
+        sender_mode_cases_c16b(g, 8 if quick else 100, 16 if quick else 22)
         gap0_c16c = len(g.lines)          # the request lines in between do not belong to a stand-alone history
         download_full_cases_c16c(g)
         g.gap_c16c = (gap0_c16c, len(g.lines))
-        avatar_fault_cases_c16c(g, 6 if quick else 120, 24 if quick else 32)
+        avatar_fault_cases_c16c(g, 6 if quick else 50, 24 if quick else 32)
         # USER 1 must come before the FA lines (they authenticate as user 1)
         lines = ["USER 1"] + pure + g.lines[1:]
     rc, impl, err = run_impl(ctx, lines)
